@@ -146,12 +146,18 @@ theorem parseLinkDestination_bp (W : WFSegs src segs) (hnb : NB → NoBlank src 
       have hn := remaining_nonneg F h1.abs.wf
       obtain ⟨r2, c2, g1, g2, g3, g4, _⟩ := advance_bp_rem W h1 (n := 0) (Int.le_refl _) hn
       have g1' : BlockReader.advance ((0 : Nat) : Int) r1 = .ok r2 := by exact_mod_cast g1
-      simp only [Option.getD_none, destPlain, g1']
+      simp only [Option.getD_none]
+      split
+      · exact ⟨_, r1, c1, rfl, h1, l1, p1, by simp⟩
+      simp only [destPlain, g1']
       exact ⟨_, r2, c2, rfl, g2, by omega, by omega, by simp⟩
     | some l =>
       have hb := destPlain_bound _ l (Nat.le_refl _) 0 0
       obtain ⟨r2, c2, g1, g2, g3, g4, g5, _⟩ := advance_bp W h1 hv (n := (destPlain l 0 0 : Int)) (by omega) (by omega)
-      simp only [Option.getD_some, g1]
+      simp only [Option.getD_some]
+      split
+      · exact ⟨_, r1, c1, rfl, h1, l1, p1, by simp⟩   -- an open parenthesis is left (repair ce3b6c4): rejected, reader not advanced
+      simp only [g1]
       exact ⟨_, r2, c2, rfl, g2, by omega, by omega, fun _ => g5⟩
 
 /-- link_ref.go:94-159 with `isNewLine` as a parameter -/
